@@ -277,4 +277,87 @@ def verdictConsumed (h : List Event) : String :=
     | .error r => "violation:" ++ r
   | v => v
 
+
+/-! ## A race-tolerant reading, for histories recorded from the running implementation only
+
+The real client decides a DATA frame's size (`awaitFlowControl`, under `cc.mu`) and admits a
+new stream (`awaitOpenSlotForStreamLocked`) in one critical section and writes the frame in a
+later one (under `cc.wmu`); `processSettings` can run — and write its acknowledgement — in
+between. The frame then reaches the peer *after* the acknowledgement although it was sized
+under the old values. The strict monitor rejects that (a peer may, too); the connection model
+treats decision and write as one step, so its theorems do not cover this window. The tolerant
+reading below judges, per stream, the first DATA frame after an acknowledgement — and the first
+new stream after it — by the limits in force before the acknowledgement. The monitor lane
+reports a history that only the tolerant reading accepts as the known finding
+`c06-settings-ack-race`; see `Req.Props.C06.settings_ack_race_counterexample`. -/
+
+structure Tolerant where
+  m : Send
+  /-- per stream: window and frame size limit before the last acknowledgement(s) -/
+  grace : List (Nat × Int × Nat)
+  /-- MAX_CONCURRENT_STREAMS before the last acknowledgement(s) -/
+  graceConc : Option (Option Nat)
+
+def Tolerant.init : Tolerant := { m := Send.init, grace := [], graceConc := none }
+
+def Tolerant.client (t : Tolerant) (f : Frame) : Verdict Tolerant :=
+  let m0 := t.m
+  match f with
+  | .settingsAck =>
+    match m0.client f with
+    | .error r => .error r
+    | .ok m' =>
+      let fresh := m0.streams.filterMap fun s =>
+        if t.grace.any (·.1 == s.id) then none else some (s.id, s.win, m0.maxFrame)
+      .ok { m := m', grace := t.grace ++ fresh, graceConc := t.graceConc.orElse fun _ => some m0.maxConc }
+  | .data id len es =>
+    let rest := t.grace.filter (·.1 != id)
+    match m0.client f with
+    | .ok m' => .ok { t with m := m', grace := rest }
+    | .error r =>
+      match t.grace.find? (·.1 == id), findM m0.streams id with
+      | some (_, w, mf), some s =>
+        let w' := if w > s.win then w else s.win
+        let mf' := if mf > m0.maxFrame then mf else m0.maxFrame
+        let lenient : Send := { m0 with maxFrame := mf', streams := setM m0.streams { s with win := w' } }
+        match lenient.client f with
+        | .error _ => .error r
+        | .ok _ =>
+          let forced : Send := { m0 with connWin := m0.connWin - len, streams := setM m0.streams { s with win := s.win - len, cEnd := es } }
+          .ok { t with m := forced, grace := rest }
+      | _, _ => .error r
+  | .headers id _ _ _ =>
+    match m0.client f with
+    | .ok m' => .ok { t with m := m', graceConc := if id > m0.lastId then none else t.graceConc }
+    | .error r =>
+      match t.graceConc with
+      | some old =>
+        let lenient : Send := { m0 with maxConc := old }
+        match lenient.client f with
+        | .error _ => .error r
+        | .ok m' => .ok { t with m := { m' with maxConc := m0.maxConc }, graceConc := none }
+      | none => .error r
+  | _ =>
+    match m0.client f with
+    | .error r => .error r
+    | .ok m' => .ok { t with m := m' }
+
+def Tolerant.run (t : Tolerant) : List Event → Verdict Tolerant
+  | [] => .ok t
+  | .c f :: es => match t.client f with
+    | .error r => .error r
+    | .ok t' => Tolerant.run t' es
+  | .p f :: es => Tolerant.run { t with m := Send.peer t.m f } es
+
+def verdictTolerant (h : List Event) (consumed : Bool) : String :=
+  match Tolerant.init.run h with
+  | .error r => "violation:" ++ r
+  | .ok t =>
+    match t.m.final with
+    | .error r => "violation:" ++ r
+    | .ok _ =>
+      match Recv.init.run h with
+      | .error r => "violation:" ++ r
+      | .ok m => if consumed && !m.notStalled then "violation:peer-stalled" else "ok"
+
 end Req.H2.Monitor
